@@ -15,8 +15,11 @@
 //    root: up to 700 bytes).
 // O: model std::map<vector<string>, string> (path elements -> value). After every step all keys of the model must read back
 //    their latest value, and every path touched so far that has no value now (removed, parent of a value, never assigned
-//    sibling) must read as absent; removal erases exactly the keys below the removed path. An assignment may be refused (negative
-//    return) when nothing changes (DESIGN sect. 4). Path walk == std::string split at the separator; rebuilt path == original string.
+//    sibling) must read as absent; removal erases exactly the keys below the removed path. A plain text assignment to a well-formed
+//    path must succeed (`assign-refused`; "values of all lengths", lengths 247..258 drawn densely). A third of the v-table
+//    assignments on the global store hands in a number: refused there, and a refusal must change nothing, including the existence
+//    answers (type-0 query) of every touched path, model key and prefix (`refused-assign-changed-existence`); an accepted number
+//    must read back as that number. Path walk == std::string split at the separator; rebuilt path == original string.
 #include "vp.hpp"
 
 #include "mpt_c.hpp"
@@ -103,6 +106,28 @@ static char sepFor(Ctx &c, const Key &k, size_t from = 0) {
   }
   return 0;
 }
+static char sepPlain(const Key &k) {
+  for (char s : {'.', '/', ':'}) {
+    bool ok = true;
+    for (auto &e : k) if (e.find(s) != std::string::npos) ok = false;
+    if (ok) return s;
+  }
+  return 0;
+}
+static void setPath(path *p, const std::string &s, char sep);
+// existence answers (query without a target type: "is there an element") of a set of paths; -1 = not askable
+static std::map<Key, int> existence(const config *cfg, const std::set<Key> &keys) {
+  std::map<Key, int> r;
+  for (auto &k : keys) {
+    char sep = sepPlain(k);
+    if (!sep) { r[k] = -1; continue; }
+    std::string ps = join(k, sep);
+    CObj<path> p;
+    setPath(p, ps, sep);
+    r[k] = mpt_config_getp(cfg, p, 0, 0) >= 0 ? 1 : 0;
+  }
+  return r;
+}
 static void setPath(path *p, const std::string &s, char sep) {
   memset(p, 0, sizeof *p);
   p->sep = sep;
@@ -120,12 +145,21 @@ static std::string drawElement(Ctx &c, unsigned longw = 3) {
   }
 }
 static std::string drawValue(Ctx &c, size_t max) {
-  size_t n = max > 249 ? c.near({0, 1, 30, 200, 249, 254, 255, 256, 300}, max) : c.near({0, 1, 30, 200, 249}, max);
+  // +-2 around each boundary: 247..258 covers the switch-over from the compact to the buffer-backed text value (250) densely
+  size_t n = max > 249 ? c.near({0, 1, 30, 200, 249, 250, 251, 255, 256}, max) : c.near({0, 1, 30, 200, 249}, max);
   std::string v(n, 'v');
   uint8_t salt = c.u8();
   for (size_t i = 0; i < n; i++) v[i] = "v.w/x:y=z 01"[(i * 5 + salt) % 12];
   return v;
 }
+
+// mpt::config::root accepts a number (metatype::generic). On this tree metatype::generic::unref() releases its malloc()ed
+// storage with "delete this" (ASan alloc-dealloc-mismatch at the latest when the store goes away); repair proposed in
+// notes/patches/C10-6-generic-metatype-delete-of-malloc.patch. Switch this on once that is in the tree.
+#ifndef C10_NUMBER_ON_ROOT
+#define C10_NUMBER_ON_ROOT 1
+#endif
+static const bool kNumberOnRoot = C10_NUMBER_ON_ROOT;
 
 // ---- one configuration under test ----------------------------------------------------------------------------------
 struct Store {
@@ -133,6 +167,7 @@ struct Store {
   bool global = false;
   Map model;
   std::set<Key> touched;  // every path that was assigned, removed or used as a view base
+  std::set<Key> nontext;  // paths whose latest accepted assignment was not a text (a store may accept a number): not read as text
   size_t valmax = 249;
   bool armed = false;  // an overwrite / a removal of an inner node happened since the last verification
 };
@@ -240,6 +275,7 @@ static void verify(Ctx &c, Store &s, const char *after) {
   for (auto &k : s.touched) if (!s.model.count(k)) absent.insert(k);
   for (auto &kv : s.model) for (size_t n = 1; n < kv.first.size(); n++) { Key p(kv.first.begin(), kv.first.begin() + n); if (!s.model.count(p)) absent.insert(p); }
   for (auto &k : absent) {
+    if (s.nontext.count(k)) continue;
     std::string got, how;
     bool have = readKey(c, s, k, route + 1, got, how);
     if (how[0] == 's') continue;
@@ -306,15 +342,50 @@ static void step(Ctx &c, Store &s, std::vector<Key> &pool) {
     val->_addr = &vp;
     val->_type = 's';
     int r;
+    // a third of the v-table assignments hands in a number instead of a text (decided by the salt byte of the value, no extra
+    // draw): the text-only stores refuse it (mpt_meta_new: "supports text content only"), and a refusal must change nothing,
+    // including which paths exist (DESIGN sect. 4). Only on the whole store: an assignment through a view creates the
+    // view's base elements before it looks at the value.
+    bool number = via == 1 && !v.empty() && strchr("v/y ", v[0]) != 0 && (s.global || kNumberOnRoot);  // first byte of the text = salt % 12 in "v.w/x:y=z 01": every third
+    if (number) {
+      double num = 0.25 * (double)v.size() + 1.5;
+      std::set<Key> ask = s.touched;
+      for (auto &kv : s.model) ask.insert(kv.first);
+      for (size_t n = 1; n <= k.size(); n++) ask.insert(Key(k.begin(), k.begin() + n));
+      std::map<Key, int> before = existence(s.cfg, ask);
+      CObj<value> nv;
+      nv->_addr = &num;
+      nv->_type = 'd';
+      r = cvt(target)->assign(target, usep, nv);
+      c.logf("  assign %s = (double) %g via v-table (sep '%c') -> %d", show(k).c_str(), num, sep, r);
+      if (r < 0) {
+        std::map<Key, int> after = existence(s.cfg, ask);
+        for (auto &b : before)
+          VP_CHECK(c, after[b.first] == b.second, "refused-assign-changed-existence", "assignment of a number to %s was refused (%d), but %s %s before and %s now", show(k).c_str(), r, show(b.first).c_str(),
+                   b.second ? "existed" : "did not exist", after[b.first] ? "exists" : "does not exist");
+        c.label("assign:number-refused");
+      } else {
+        // accepted: the number is the most recent value of the path
+        double back = -1;
+        CObj<path> np;
+        setPath(np, ps, sep);
+        int gr = mpt_config_getp(s.cfg, np, 'd', &back);
+        VP_CHECK(c, gr >= 0 && back == num, "value-wrong", "number %g assigned to %s (accepted, %d) reads back as %g (%d)", num, show(k).c_str(), r, back, gr);
+        if (s.model.erase(k)) s.armed = true;
+        s.nontext.insert(k);
+        c.label("assign:number-accepted");
+      }
+    } else {
     if (via == 1) r = cvt(target)->assign(target, usep, val);
     else r = mpt_config_set(via == 2 ? 0 : target, pstr.c_str(), vp, usesep, 0);
     c.logf("  assign %s = '%s'[%zu] via %s (sep '%c') -> %d", show(k).c_str(), brief(v).c_str(), v.size(), route, sep, r);
-    if (r >= 0) {
-      if (s.model.count(k)) { c.label("assign:overwrite"); s.armed = true; }
-      s.model[k] = v;
-      c.label("assign:ok");
-    } else {
-      c.label("assign:refused");  // allowed when nothing changed: verify() decides
+    // "values of all lengths": a plain text to a well-formed path is what the store is for; on the unchanged tree no such
+    // assignment is ever refused (0 of > 120 000 per quick run), so a refusal is not the tolerated kind of DESIGN sect. 4
+    VP_CHECK(c, r >= 0, "assign-refused", "assignment of a text value of %zu bytes to %s via %s was refused (%d)", v.size(), show(k).c_str(), route, r);
+    if (s.model.count(k)) { c.label("assign:overwrite"); s.armed = true; }
+    s.model[k] = v;
+    s.nontext.erase(k);
+    c.label("assign:ok");
     }
   } else if (op == 1) {
     size_t below = 0;
@@ -324,6 +395,7 @@ static void step(Ctx &c, Store &s, std::vector<Key> &pool) {
     else r = mpt_config_set(via == 2 ? 0 : target, pstr.c_str(), 0, usesep, 0);
     c.logf("  remove %s via %s (sep '%c') -> %d   (%zu values at or below)", show(k).c_str(), route, sep, r, below);
     for (auto it = s.model.begin(); it != s.model.end();) { if (hasPrefix(it->first, k)) it = s.model.erase(it); else ++it; }
+    for (auto it = s.nontext.begin(); it != s.nontext.end();) { if (hasPrefix(*it, k)) it = s.nontext.erase(it); else ++it; }
     c.label("remove");
     if (below > 1 || (below == 1 && !s.model.empty())) { c.label("remove:inner-or-sibling"); s.armed = true; }
     if (!below) c.label("remove:nothing-there");
@@ -380,6 +452,7 @@ static void run_store(Ctx &c, bool global) {
     int r = cvt(s.cfg)->remove(s.cfg, all);
     c.logf("  remove everything -> %d", r);
     s.model.clear();
+    s.nontext.clear();
     verify(c, s, "remove-all");
     c.label("remove-all");
   }
